@@ -325,6 +325,14 @@ class AppendSampler(PointSampler):
         samples_a = self.sampler_a.sample_points(params, device=device)
         samples_b = self.sampler_b.sample_points(params, device=device)
         self.set_length(len(samples_a))
+        if not params.isempty:
+            # both samples carry the (repeated) parameter columns: keep them only once,
+            # behind the sampled points, like every other sampler
+            repeated_params = samples_a[:, list(params.space.keys())]
+            own_a = [v for v in samples_a.space if v not in params.space]
+            own_b = [v for v in samples_b.space if v not in params.space]
+            samples_a = samples_a[:, own_a]
+            samples_b = samples_b[:, own_b].join(repeated_params)
         return samples_a.join(samples_b)
 
 
